@@ -30,6 +30,8 @@ def run(prop, explorations, accept_tags=None, extra_cov=None, extra_viol=(), lev
         import os
         if os.environ.get("VERIF_ONLY") and os.environ["VERIF_ONLY"] not in name:
             continue  # sizing aid only
+        if os.environ.get("VERIF_SKIP") and any(x and x in name for x in os.environ["VERIF_SKIP"].split("|")):
+            continue  # sizing aid only
         import os
         cap = int(os.environ.get("VERIF_MAXEXEC", "0")) or None  # sizing aid only: a capped run reports exhaustive=false
         import sys, time
